@@ -26,7 +26,8 @@ Oracle (independent of the model, on what the implementation did):
   * interrupted with real worker processes (real seed_task / TileWorkerPool / TileSeedWorker): every list handed over
     before the interrupt is worked off before seed_task returns (oracle only);
   * configured tasks (several grids per cache) only hand over tiles touching the point-wise transformed coverage;
-  * TileWorkerPool.process puts the list into the queue exactly once however long the queue is full (oracle only);
+  * TileWorkerPool.process puts the list into the queue exactly once however long the queue is full (also compared
+    with Seed.pool_process);
   * the walker does not raise (finding C11-sliver, repaired: rectangles thinner than 2/10 pixel are generated on purpose);
     the progress file holds exactly the reported identifier.
 """
@@ -1277,6 +1278,7 @@ def pool_cases(ctx):
 
     import logging
     logging.getLogger('mapproxy.seed.seeder').setLevel(logging.ERROR)      # 'no workers left, stopping' is expected here
+    terms, descs = [], []
     for _ in range(ctx.n(40, 300)):
         nfull = rng.choice([0, 0, 1, 2, 5])
         alive = [rng.random() < 0.7 for _ in range(rng.randrange(1, 4))]
@@ -1295,6 +1297,12 @@ def pool_cases(ctx):
         except Exception as e:  # noqa
             outcome = 'raised %s' % type(e).__name__
         ctx.case(('pool', nfull, tuple(alive)), nfull > 0)
+        # model: every Queue.Full is followed by the liveness test of the workers; then the queue accepts
+        env = '[%s]' % '; '.join(['PutFull %s' % blit(any(alive))] * nfull + ['PutOk'])
+        res = {'returned': 'Handed', 'interrupted': 'Interrupted'}.get(outcome, 'Retrying')
+        terms.append('(%s, %s, (%s, %s))' % (env, zlit(len(terms)), res,
+                                             llit(pool.tiles_queue.items, lambda it: 'Some %s' % zlit(len(terms)))))
+        descs.append({'queue_full_times': nfull, 'workers_alive': alive, 'outcome': outcome, 'queue': repr(pool.tiles_queue.items)})
         want_items = [tiles] if (nfull == 0 or any(alive)) else []
         want = 'returned' if want_items else 'interrupted'
         if outcome != want or pool.tiles_queue.items != want_items:
@@ -1302,7 +1310,12 @@ def pool_cases(ctx):
                      'TileWorkerPool.process with a queue that is full %d time(s) and workers alive=%r: %s, queue holds %r (expected %s with %r)'
                      % (nfull, alive, outcome, pool.tiles_queue.items, want, want_items),
                      {'queue_full_times': nfull, 'workers_alive': alive, 'tiles': tiles})
-            return
+            break
+    ctx.corr_check('pool_process', 'Grid Seed', 'list put_outcome * Z * (proc_result * list (option Z))', terms,
+                   "fun c => let '(env, tiles, (r, q)) := c in let '(mr, mq) := pool_process env [] tiles in "
+                   "match mr, r with Handed, Handed | Interrupted, Interrupted | Retrying, Retrying => true | _, _ => false end && "
+                   "list_eqb (opt_eqb Z.eqb) mq q",
+                   lambda i: descs[i])
 
 
 # ----------------------------------------------------------------------------- task ids and the configuration path
@@ -1491,7 +1504,7 @@ def conf_stream(ctx):
     from mapproxy.seed.config import load_seed_tasks_conf
     import random as _r
     rng = ctx.rng
-    for i in range(ctx.n(4, 24)):
+    for i in range(ctx.n(4, 15)):
         rescale = rng.choice(['    upscale_tiles: 1', '    downscale_tiles: 1', '    upscale_tiles: 2', ''])
         gridname = rng.choice(['GLOBAL_GEODETIC', 'small', 'GLOBAL_MERCATOR'])
         multi = (i % 3 == 0) or rng.random() < 0.2
@@ -1749,13 +1762,13 @@ def run(ctx):
         s = dict(s)
         s['corpus'] = fn
         specs.append(s)
-    for _ in range(ctx.n(22, 230)):
+    for _ in range(ctx.n(22, 160)):
         specs.append(gen_exact_spec(rng))
-    for j in range(ctx.n(6, 40)):
+    for j in range(ctx.n(6, 30)):
         specs.append(gen_pyramid_spec(rng, irregular=(j % 2 == 1)))
-    for _ in range(ctx.n(2, 16)):
+    for _ in range(ctx.n(2, 10)):
         specs.append(gen_bend_spec(rng))
-    for _ in range(ctx.n(7, 60)):
+    for _ in range(ctx.n(7, 40)):
         try:
             specs.append(gen_real_spec(rng))
         except Exception as e:  # noqa
